@@ -633,6 +633,13 @@ theorem appendMapping_map_spec (m n : Mapping) (hm : MirrorFunctional m) (hn : M
           { pos := r2.pos, delInfo := r1.delInfo ||| r2.delInfo })) :=
   appendMapping_mapResult m n hne hm.1 hm.2.2 hm.inRange hn.sym hn.inRange hf p a
 
+/-- … and when the receiver's `from_` lies at or beyond its last map, the walk starts inside the
+    appended part: the other mapping read from `from_ − len` (its own bounds still ignored) -/
+theorem appendMapping_map_spec_late (m n : Mapping) (hm : MirrorFunctional m) (hn : MirrorFunctional n)
+    (hne : n.maps ≠ []) (hf : m.maps.length ≤ m.from_) (p a : Int) :
+    (m.appendMapping n).mapResult p a = (n.slice (m.from_ - m.maps.length)).mapResult p a :=
+  appendMapping_mapResult_late m n hne hm.1 hm.2.2 hn.sym hn.inRange hf p a
+
 /-- … and for `Mapping.map` -/
 theorem appendMapping_map_spec_pos (m n : Mapping) (hm : MirrorFunctional m) (hn : MirrorFunctional n)
     (hne : n.maps ≠ []) (hf : m.from_ ≤ m.maps.length) (p a : Int) :
@@ -697,6 +704,12 @@ theorem appendMappingInverted_map_spec (m n : Mapping) (hm : MirrorFunctional m)
         (n.invert.mapResult r1.pos a).map (fun r2 =>
           { pos := r2.pos, delInfo := r1.delInfo ||| r2.delInfo })) :=
   appendMappingInverted_mapResult m n hne hm.1 hm.2.2 hm.inRange hn.sym hn.inRange hf p a
+
+theorem appendMappingInverted_map_spec_late (m n : Mapping) (hm : MirrorFunctional m) (hn : MirrorFunctional n)
+    (hne : n.maps ≠ []) (hf : m.maps.length ≤ m.from_) (p a : Int) :
+    (m.appendMappingInverted n).mapResult p a =
+      (n.invert.slice (m.from_ - m.maps.length) (some n.maps.length)).mapResult p a := by
+  rw [appendMappingInverted_mapResult_late m n hne hm.1 hm.2.2 hn.sym hn.inRange hf p a, invert_to]
 
 /-- **`Mapping.invert`, mirror-less**: mapping through the inverted mapping is folding the inverted
     maps in reverse order (the `from_`/`to` of the original are ignored: *all* its maps) -/
